@@ -70,6 +70,7 @@ class C10(F.Check):
         self.lists = lists
         ks = []
         self.inst = []
+        self.inst2 = []
         self.closed = []
         self.listinfo = []
         # documented exclusion: two distinct units of identical dimension, magnitude and origin in one list
@@ -91,6 +92,18 @@ class C10(F.Check):
                                  key=key, family="to_cpu")
                     ks.append(k)
                     self.inst.append((k.name, r, m, off, tag, key))
+            # explicit-rep spellings into the common point unit (as<T>, coerce_as<T>, converting constructor): small unsigned / signed
+            # source reps widened to a larger destination - "integral and unsigned reps stay exact"
+            if li % 3 == 0 or self.tier == "thorough":
+                for ui, u in enumerate(us):
+                    for r1, r2 in (("uint16_t", "uint32_t"), ("uint32_t", "int64_t"), ("uint32_t", "uint64_t"), ("uint8_t", "int32_t"), ("int16_t", "int64_t")):
+                        for form, body in (("coerce_as", "return make_quantity_point<%s>(x).coerce_as<%s>(QuantityPointMaker<%s>{}).in(QuantityPointMaker<%s>{});" % (u.cxx, r2, cpu, cpu)),
+                                           ("ctor", "QuantityPoint<%s, %s> p{make_quantity_point<%s>(x)}; return p.in(QuantityPointMaker<%s>{});" % (cpu, r2, u.cxx, cpu))):
+                            tag = "%d_%d_%s_%s_%s" % (li, ui, r1.replace("_t", ""), r2.replace("_t", ""), form)
+                            k = F.Kernel("c10_tocpu2_%s" % tag, r2, [(r1, "x")], body,
+                                         key={"list": [x.name for x in us], "unit": u.name, "rep": r1, "to_rep": r2, "form": form}, family="to_cpu_rep_change_" + form)
+                            ks.append(k)
+                            self.inst2.append((k.name, "c10_tocpu_%d_%d_uint64" % (li, ui), r1, r2, form, tag, k.key))
             # closed: permutation / repetition invariance, and identity with an input when the model says so
             perms = list(itertools.permutations(us))[1:4]
             for pi, pm in enumerate(perms):
@@ -172,6 +185,26 @@ class C10(F.Check):
                     return T.ile(mag, T.const_int(hi)), T.not_(e.ub)
                 obs.append(F.Ob("reach:" + tag, xs, fnR, key=key, kernels=[name],
                                 note="signed: |x|*m + o <= max => no UB"))
+        # explicit-rep spellings: for every x of the (narrow) source rep, if x*m + o fits the destination rep the result is exactly that
+        for name, uname, r1, r2, form, tag, key in self.inst2:
+            if derived.get(uname) is None:
+                continue
+            m, off = derived[uname]
+            if K[name].kernel.dropped:
+                # the converting constructor is subject to the implicit-conversion policy; coerce_as is not
+                if form == "coerce_as":
+                    self.notes.append("explicit-rep to_cpu kernel dropped: %s %s" % (key, K[name].kernel.dropped[:120]))
+                self.extra_cov["explicit_rep_forms_refused"] = self.extra_cov.get("explicit_rep_forms_refused", 0) + 1
+                continue
+            lo2, hi2 = F.ct_range(r2)
+
+            def fn2(K, x, name=name, m=m, off=off, r1=r1, r2=r2, lo2=lo2, hi2=hi2):
+                e = K[name](x)
+                exp = T.iadd(T.imul(F.ival(r1, x), T.const_int(m)), T.const_int(off))
+                inter = T.imul(F.ival(r1, x), T.const_int(m))
+                return T.and_(T.in_range(exp, lo2, hi2), T.in_range(inter, lo2, hi2)), T.and_(T.not_(e.ub), T.eq(F.ival(r2, e.ret), exp))
+            obs.append(F.Ob("rep_change:" + tag, [("x", F.ct_sort(r1))], fn2, key=dict(key, m=m, o=off), kernels=[name],
+                            note="explicit destination rep: x*m and x*m + o fit the destination => the result is exactly x*m + o, no UB (m, o as read off the same-rep kernel)"))
         # closed consistency facts per list: positive integer multipliers, non-negative offsets, one common unit G' that divides
         # the model's gcd unit, offsets consistent with the origins, and 'is one of the inputs' exactly for m == 1, o == 0
         for li, info in enumerate(self.listinfo):
